@@ -291,6 +291,9 @@ pub struct Client {
     pub local: String,
     pub stream: Option<Box<dyn Duplex>>,
     pub fd: i32,
+    pub counted: bool,        // accepted_seen already updated for this connection
+    pub key: String,          // registry key "<addr>#<n>" this connection gets if it is accepted
+    pub refused_before: u64,  // refusals of this address seen before this connection was opened
     pub rbuf: Vec<u8>,
     pub sent_lines: u64,
     pub read_lines: u64,
@@ -308,6 +311,7 @@ pub struct Session {
     pub clients: BTreeMap<String, Client>,
     pub retired: Vec<String>, // peer keys of connections already observed ended
     pub tls: bool,
+    pub accepted_seen: HashMap<String, u64>, // per client address: connections of ours the server accepted so far
 }
 
 #[derive(Debug)]
@@ -342,6 +346,7 @@ impl Session {
                         clients: BTreeMap::new(),
                         retired: vec![],
                         tls,
+                        accepted_seen: HashMap::new(),
                     }
                 }
                 Err(e) => {
@@ -395,6 +400,12 @@ impl Session {
         let sock = TcpSocket::new_v4().map_err(|e| e.to_string())?;
         let local: SocketAddr = format!("{}:0", id).parse().map_err(|_| "bad id".to_string())?;
         sock.bind(local).map_err(|e| e.to_string())?;
+        // the address is known before the server can see the connection: read the counters now
+        let bound = sock.local_addr().map_err(|e| e.to_string())?.to_string();
+        let (refused_before_open, accepted_before_open) = {
+            let reg = verif::REG.lock().unwrap();
+            (reg.refused.get(&bound).cloned().unwrap_or(0), reg.accepted.get(&bound).cloned().unwrap_or(0))
+        };
         let dest: SocketAddr = format!("127.0.0.1:{}", self.port).parse().unwrap();
         let stream = sock.connect(dest).await.map_err(|e| e.to_string())?;
         stream.set_nodelay(true).ok();
@@ -419,6 +430,10 @@ impl Session {
             id.to_string(),
             Client {
                 id: id.to_string(),
+                counted: false,
+                // the server numbers the accepted connections of an address: ours is the next one
+                key: format!("{}#{}", local, accepted_before_open),
+                refused_before: refused_before_open,
                 local,
                 stream: Some(stream),
                 fd,
@@ -501,6 +516,14 @@ impl Session {
             notified.as_mut().enable();
             let why = self.not_quiescent();
             if why.is_none() {
+                // remember which of our connections the server has accepted (numbering of registry keys)
+                let reg = verif::REG.lock().unwrap();
+                for c in self.clients.values_mut() {
+                    if !c.counted && reg.conns.contains_key(&c.key) {
+                        c.counted = true;
+                        *self.accepted_seen.entry(c.local.clone()).or_insert(0) += 1;
+                    }
+                }
                 return Ok(());
             }
             let now = Instant::now();
@@ -519,7 +542,7 @@ impl Session {
         let reg = verif::REG.lock().unwrap();
         // connections whose client does not read are exempt: their task may sit in a flush for ever
         let exempt: std::collections::HashSet<&String> =
-            self.clients.values().filter(|c| c.noread && !c.half_closed).map(|c| &c.local).collect();
+            self.clients.values().filter(|c| c.noread && !c.half_closed).map(|c| &c.key).collect();
         for (key, r) in reg.conns.iter() {
             if exempt.contains(key) || r.dropped {
                 continue;
@@ -540,9 +563,9 @@ impl Session {
             }
         }
         for (id, c) in self.clients.iter() {
-            match reg.conns.get(&c.local) {
+            match reg.conns.get(&c.key) {
                 None => {
-                    if !reg.task_done.contains_key(&c.local) {
+                    if reg.refused.get(&c.local).cloned().unwrap_or(0) <= c.refused_before {
                         return Some(format!("{}: not yet accepted", id));
                     }
                 }
@@ -572,7 +595,7 @@ impl Session {
         if vnick.is_empty() {
             return Err("victim not registered".into());
         }
-        let vlocal = self.clients.get(victim).map(|c| c.local.clone()).ok_or("no victim")?;
+        let vlocal = self.clients.get(victim).map(|c| c.key.clone()).ok_or("no victim")?;
         if let Some(c) = self.clients.get_mut(victim) {
             c.noread = true;
         }
@@ -605,9 +628,9 @@ impl Session {
                 if c.noread {
                     continue;
                 }
-                if let Some(r) = reg.conns.get(&c.local) {
+                if let Some(r) = reg.conns.get(&c.key) {
                     targets.push((id.clone(), r.written, r.ended || r.dropped));
-                } else if reg.task_done.contains_key(&c.local) {
+                } else if reg.refused.get(&c.local).cloned().unwrap_or(0) > c.refused_before {
                     targets.push((id.clone(), 0, true));
                 }
             }
@@ -687,7 +710,7 @@ impl Session {
         let mut out = Map::new();
         let mut dead = vec![];
         for (id, c) in self.clients.iter() {
-            if let Some(r) = conns.get(&c.local) {
+            if let Some(r) = conns.get(&c.key) {
                 let ended = r["ended"].as_bool().unwrap_or(false);
                 let dropped = r["dropped"].as_bool().unwrap_or(false);
                 if ended {
@@ -728,9 +751,9 @@ impl Session {
             .iter()
             .filter(|(_, c)| {
                 reg.conns
-                    .get(&c.local)
+                    .get(&c.key)
                     .map(|r| r.ended || r.dropped)
-                    .unwrap_or(reg.task_done.contains_key(&c.local))
+                    .unwrap_or(reg.refused.get(&c.local).cloned().unwrap_or(0) > c.refused_before)
                     && c.stream.is_none()
             })
             .map(|(id, _)| id.clone())
